@@ -549,3 +549,360 @@ def suite_sqlite_kill(tier, seed):
         s.case({"note": "no kill point reached"}, nontrivial=False)
         s.case({"note": "no kill point reached (2)"}, nontrivial=False)
     return s
+
+
+# ------------------------------------------------------------------------------------ C16 / C03: every storage built from the configuration validates
+def suite_second_instance_policies(tier, seed):
+    s = Suite("oracle:policies-on-every-storage-instance")
+    s.rule = ("two storages are built one after the other from the SAME Config.storage dict (what get_storage(reload=True) does), with the "
+              "validators is_signed + is_recent configured, and once without a validators key; each is offered a forged event (bad sig) and a "
+              "validly signed but too old event: every instance must refuse both (the instance without configured validators: the forged one); both backends")
+    from nostr_relay.config import Config
+
+    async def one(backend, with_key):
+        env.load_config(oldest_event=1000)
+        env.patch_clock()
+        sc = env.Scratch()
+        outs = []
+        if backend == "sql":
+            from nostr_relay.storage import get_metadata
+            from nostr_relay.storage.db import DBStorage
+            Config.storage = {"sqlalchemy.url": "sqlite+aiosqlite:///" + sc.path(".sqlite3")}
+            mk = DBStorage
+        else:
+            from nostr_relay.storage import kv
+            kv.analyze = lambda *a, **k: None
+            Config.storage = {"class": "nostr_relay.storage.kv.LMDBStorage", "path": "second-%d" % id(sc)}
+            mk = kv.LMDBStorage
+        if with_key:
+            Config.storage["validators"] = ["nostr_relay.validators.is_signed", "nostr_relay.validators.is_recent"]
+        for inst in range(2):
+            st = mk(Config.storage)
+            await st.setup()
+            if backend == "sql":
+                async with st.db.begin() as conn:
+                    await conn.run_sync(get_metadata().create_all)
+                st._backend = "sql"
+            else:
+                st._backend = "kv"
+                st._submitted = 0
+                import lmdb
+                st._base_done = lmdb.WRITE_TXNS_DONE[0]
+            forged = env.mk_event(0, 1, env.NOW - 5, [], "forged %d" % inst)
+            forged["sig"] = "00" * 64
+            old = env.mk_event(1, 1, env.NOW - 5000, [], "old %d" % inst)
+            r = {"instance": inst, "forged": await _submit(st, forged), "too_old": await _submit(st, old)}
+            outs.append(r)
+            await asyncio.sleep(0.05)
+            await env.close(st)
+        sc.close()
+        return {"backend": backend, "validators_configured": with_key}, outs
+    for backend in ("sql", "kv"):
+        for with_key in (True, False):
+            case, outs = env.run(one(backend, with_key))
+            s.case(case, nontrivial=True)
+            for r in outs:
+                bad = [k for k in (("forged", "too_old") if with_key else ("forged",)) if not r[k].startswith("refused")]
+                if bad:
+                    s.violate("storage-instance-without-validators", case,
+                              "storage instance %d built from the same configuration admitted: %s" % (r["instance"], bad), observed=outs)
+                    break
+    return s
+
+
+# ------------------------------------------------------------------------------------ C03 / C04: what is stored and served is what was signed
+def suite_served_is_signed(tier, seed):
+    """accepted events over many kinds and tag shapes come back field for field (stored REQ, get_event, live) and still
+    verify with the harness's own NIP-01 hash; catches rewriting of an event after verification"""
+    s = Suite("oracle:served-event-is-the-signed-event")
+    s.rule = ("validly signed events over kinds {0,1,3,5,7,10002,30000,30023} x tag shapes (bare [d], [d,''], upper-case hex in e/p values, integers, "
+              "unicode, empty strings, duplicate tags, long values) are submitted; each accepted event is read back through a stored REQ, get_event "
+              "and a live push: every field equal to what was sent and id = sha256 of the NIP-01 serialization of the served fields; both backends")
+    rng = rng_for(seed, "served")
+    H = "AB" * 32
+    shapes = [[], [["d"]], [["d", ""]], [["d", "x"], ["d", "y"]], [["e", H], ["p", H.lower()]], [["p", "Ab" * 32]], [["t", ""], ["t", ""]],
+              [["expiration", 1822439711]], [["k", 1], ["t", "é😀"]], [["t", "v" * 300]], [["d"], ["t", "x"]], [["e", H, "wss://r", "root"]]]
+
+    async def one(backend):
+        env.load_config()
+        env.patch_clock()
+        sc = env.Scratch()
+        st = await (env.sql_storage(sc) if backend == "sql" else env.kv_storage(sc))
+        q = asyncio.Queue()
+        await st.subscribe(env.FakeClient("live"), "live", [{"authors": env.PUBS[:3]}], q)
+        bad = []
+        n = 0
+        kinds = [0, 1, 3, 5, 7, 10002, 30000, 30023]
+        combos = [(k, sh) for k in kinds for sh in shapes]
+        if tier == "quick":
+            # every tag shape on a regular and on a parameterized replaceable kind, plus a sample of the rest
+            core = [(k, sh) for k in (1, 30000) for sh in shapes]
+            combos = core + rng.sample([c for c in combos if c not in core], 16)
+        for i, (k, sh) in enumerate(combos):
+            e = env.mk_event(i % 3, k, env.NOW - 1000 + i, [list(t) for t in sh], "c%d \u0000\"\\ \u00e9\U0001F600" % i)
+            r = await _submit(st, e)
+            if r != "true":
+                continue
+            n += 1
+            await env.quiesce(st)
+            views = {}
+            got, _ = await env.req(st, [{"ids": [e["id"]]}])
+            views["stored"] = env.ev_obj(got[0]) if got else None
+            g = await st.get_event(e["id"])
+            views["get_event"] = env.ev_obj(g) if g else None
+            for t in list(st._notify_sub_tasks):
+                try:
+                    await t
+                except Exception:
+                    pass
+            live = [it[1] for it in [q.get_nowait() for _ in range(q.qsize())] if it[1] is not None and it[1].id == e["id"]]
+            views["live"] = env.ev_obj(live[0]) if live else None
+            for name, v in views.items():
+                if v is None:
+                    continue            # absence is judged by other properties (replaced / deleted meanwhile)
+                same = all(json_eq(v[f], e[f]) for f in ("id", "pubkey", "created_at", "kind", "tags", "content", "sig"))
+                rehash = env.compute_id(v["pubkey"], v["created_at"], v["kind"], v["tags"], v["content"]) == v["id"]
+                if not same or not rehash:
+                    bad.append({"kind": k, "tags": sh, "path": name, "sent_tags": e["tags"], "served_tags": v["tags"], "rehash_ok": rehash})
+        await env.close(st)
+        sc.close()
+        return n, bad
+    for backend in ("sql", "kv"):
+        n, bad = env.run(one(backend))
+        s.case({"backend": backend, "accepted": n}, nontrivial=n > 5)
+        s.case({"backend": backend, "shapes": len(shapes)}, nontrivial=True)
+        if n == 0:
+            s.disagree({"backend": backend}, "some events accepted", "none of the generated events was accepted: the oracle explored nothing")
+        if bad:
+            s.violate("served-event-differs-from-signed", {"backend": backend, "first": bad[0]},
+                      "an accepted event is served with different fields / no longer hashes to its id", observed=bad[:3])
+    return s
+
+
+def json_eq(a, b):
+    if isinstance(a, (list, tuple)) and isinstance(b, (list, tuple)):
+        return len(a) == len(b) and all(json_eq(x, y) for x, y in zip(a, b))
+    return type(a) is type(b) and a == b
+
+
+# ------------------------------------------------------------------------------------ C04: frames of the rate-limited branch
+def suite_limited_frames(tier, seed):
+    s = Suite("oracle:rate-limited-frames-wellformed")
+    s.rule = ("EVENT / REQ / CLOSE messages refused by the rate limiter (scripted verdict) whose payload ids are hostile strings (quotes, backslashes, "
+              "newlines, controls, non-BMP) or non-strings: every frame sent must parse as JSON of shape OK / NOTICE, an OK must echo the id string exactly")
+    import json as _json
+    from . import relay
+
+    async def one():
+        d = relay.Driver("sql")
+        await d.start()
+        await d.open(0)
+        ids = ['abc"def', "abc\\", 'x","y', "line\nbreak", "\u0000\u001f", "😀", "", "é" * 70, 5, None, ["x"], {"a": 1}]
+        for i in ids:
+            await d.msg(0, ["EVENT", {"id": i}], limited=True)
+        await d.msg(0, ["REQ", 'q"', {"kinds": [1]}], limited=True)
+        await d.msg(0, ["CLOSE", "q\\"], limited=True)
+        sent = list(d.conns[0].sent)
+        await d.finish()
+        return ids, sent
+    ids, sent = env.run(one())
+    s.case({"ids": [repr(i) for i in ids]}, nontrivial=True)
+    s.case({"frames": len(sent)}, nontrivial=True)
+    for k, raw in enumerate(sent):
+        try:
+            v = _json.loads(raw)
+            ok = isinstance(v, list) and v and ((v[0] == "OK" and len(v) == 4 and v[2] is False) or (v[0] == "NOTICE" and len(v) == 2))
+            if ok and v[0] == "OK" and k < len(ids) and isinstance(ids[k], str):
+                ok = v[1] == ids[k]
+        except Exception:
+            ok = False
+        if not ok:
+            s.violate("rate-limited-frame-malformed", {"frame_index": k, "id": repr(ids[k]) if k < len(ids) else None},
+                      "a frame sent for a rate-limited message is not well-formed JSON of OK / NOTICE shape echoing the id", observed=raw[:200])
+            break
+    if len(sent) != len(ids) + 2:
+        s.violate("rate-limited-frame-count", {"expected": len(ids) + 2}, "not exactly one frame per rate-limited message", observed=len(sent))
+    return s
+
+
+# ------------------------------------------------------------------------------------ C09 / C06: several d tags - the first one names the address
+def suite_multi_d_tags(tier, seed):
+    s = Suite("oracle:first-d-tag-names-the-address")
+    s.rule = ("parameterized replaceable events carrying two d tags ([d,a],[d,ab] / [d],[d,a] / [d,''],[d,a]); a newer event of the same author and kind "
+              "whose d value equals the SECOND d tag of the stored one must not remove it (other address), one whose d value equals the FIRST must; "
+              "in-order and out-of-order arrival; both backends")
+    rng = rng_for(seed, "multid")
+    shapes = [([["d", "a"], ["d", "ab"]], "a", "ab"), ([["d"], ["d", "a"]], "", "a"), ([["d", ""], ["d", "x"]], "", "x"),
+              ([["d", "profile"], ["d", "settings"]], "profile", "settings")]
+
+    async def one(backend, tags, first, second, order):
+        env.load_config()
+        env.patch_clock()
+        sc = env.Scratch()
+        st = await (env.sql_storage(sc) if backend == "sql" else env.kv_storage(sc))
+        who = rng.randrange(3)
+        kind = rng.choice([30000, 30023])
+        x = env.mk_event(who, kind, env.NOW - 100, [list(t) for t in tags], "two d tags")
+        y_other = env.mk_event(who, kind, env.NOW - 50, [["d", second]], "newer, address = second d")
+        y_same = env.mk_event(who, kind, env.NOW - 40, [["d", first]] if first else [], "newer, address = first d")
+        seq = [x, y_other] if order == "in" else [y_other, x]
+        res = []
+        for e in seq:
+            res.append(await _submit(st, e))
+            await env.quiesce(st)
+        ids1 = set(await env.stored_ids(st))
+        res.append(await _submit(st, y_same))
+        await env.quiesce(st)
+        ids2 = set(await env.stored_ids(st))
+        await env.close(st)
+        sc.close()
+        return {"backend": backend, "tags": tags, "order": order}, {
+            "acks": res, "x_kept_with_other_address": x["id"] in ids1, "other_stored": y_other["id"] in ids1,
+            "x_removed_by_same_address": x["id"] not in ids2, "other_still_stored": y_other["id"] in ids2, "same_stored": y_same["id"] in ids2}
+    for backend in ("sql", "kv"):
+        for tags, first, second in shapes:
+            for order in ("in", "out"):
+                case, obs = env.run(one(backend, tags, first, second, order))
+                s.case(case, nontrivial=True)
+                ok = obs["x_kept_with_other_address"] and obs["other_stored"] and obs["x_removed_by_same_address"] and obs["other_still_stored"] and obs["same_stored"]
+                if not ok:
+                    s.violate("address-not-from-first-d-tag", case, "replacement did not go by the first d tag", observed=obs)
+    return s
+
+
+# ------------------------------------------------------------------------------------ C05 / C19: a stalled reader must not stall the others
+def suite_stalled_reader(tier, seed):
+    s = Suite("oracle:stalled-reader-does-not-stall-others")
+    s.rule = ("three connections through web.start_client: S subscribes to everything and stops reading (its ws_send never completes), H subscribes "
+              "to the same and reads normally, P publishes N=1100 accepted events: every EVENT of P is answered by its OK without waiting for S, and "
+              "H receives all N as live pushes, in order")
+    from . import relay
+    import json as _json
+    N = 1100 if tier == "quick" else 2500
+
+    async def main():
+        from nostr_relay import web
+        env.load_config(subscription_limit=5)
+        env.patch_clock()
+        env.patch_web_sleep()
+        sc = env.Scratch()
+        st = await env.sql_storage(sc)
+        import falcon, logging
+
+        class C:
+            def __init__(self, stalled=False):
+                self.inbox = asyncio.Queue()
+                self.sent = []
+                self.stalled = stalled
+                self.block = asyncio.Event()
+
+            async def send(self, text):
+                if self.stalled and text.startswith('["EVENT"'):
+                    await self.block.wait()
+                self.sent.append(text)
+
+            async def recv(self):
+                item = await self.inbox.get()
+                if item is None:
+                    raise falcon.WebSocketDisconnected()
+                return item
+
+            async def close(self, code=1000):
+                pass
+        conns = {k: C(stalled=(k == "S")) for k in "SHP"}
+        tasks = {k: asyncio.create_task(web.start_client(st, c.send, c.recv, c.close, logging.getLogger("x"), rate_limiter=relay.NullLimiter(),
+                                                         remote_addr="10.1.1.%d" % i)) for i, (k, c) in enumerate(conns.items())}
+        for k in "SH":
+            conns[k].inbox.put_nowait(_json.dumps(["REQ", "all", {"kinds": [1]}]))
+        await asyncio.sleep(0.05)
+        evs = [env.mk_event(i % 3, 1, env.NOW - 5000 + i, [], "s%d" % i) for i in range(N)]
+        wedged_at = None
+        for i, e in enumerate(evs):
+            before = len([x for x in conns["P"].sent if x.startswith('["OK"')])
+            conns["P"].inbox.put_nowait(_json.dumps(["EVENT", e]))
+            for _ in range(4000):
+                await asyncio.sleep(0)
+                if len([x for x in conns["P"].sent[-3:] if x.startswith('["OK"')]) and len(conns["P"].sent) > before:
+                    break
+                if _ % 200 == 199:
+                    await asyncio.sleep(0.01)
+            else:
+                wedged_at = i
+                break
+        await asyncio.sleep(0.1)
+        got_h = [_json.loads(x)[2]["id"] for x in conns["H"].sent if x.startswith('["EVENT"')]
+        oks = len([x for x in conns["P"].sent if x.startswith('["OK"')])
+        conns["S"].block.set()
+        for c in conns.values():
+            c.inbox.put_nowait(None)
+        done, pending = await asyncio.wait(list(tasks.values()), timeout=10)
+        for t in pending:
+            t.cancel()
+        await env.close(st)
+        sc.close()
+        return {"wedged_at": wedged_at, "oks": oks, "healthy_received": len(got_h),
+                "healthy_in_order": got_h == [e["id"] for e in evs][:len(got_h)], "handlers_left_running": len(pending)}
+    obs = env.run(main())
+    s.case({"events": N}, nontrivial=True)
+    s.case({"connections": 3}, nontrivial=True)
+    if obs["wedged_at"] is not None or obs["oks"] != N or obs["healthy_received"] != N or not obs["healthy_in_order"]:
+        s.violate("stalled-reader-stalls-others", {"events": N}, "a connection that stopped reading delays or blocks the publisher / another subscriber",
+                  expected={"oks": N, "healthy_received": N}, observed=obs)
+    return s
+
+
+# ------------------------------------------------------------------------------------ C05: pushed live => returned by the same filter afterwards
+def suite_live_then_stored(tier, seed):
+    s = Suite("oracle:pushed-live-implies-stored-answer")
+    s.rule = ("subscriptions with filters (kinds / authors / #t / since) stay open; regular-kind events incl. integer extremes for kind and created_at, "
+              "long tag values and odd tag shapes are submitted; every event pushed live under a filter must be returned by the same filter in a "
+              "stored query afterwards (timestamps equal to a bound and ephemeral kinds excepted), and vice versa; both backends")
+    rng = rng_for(seed, "livestored")
+
+    async def one(backend):
+        env.load_config()
+        env.patch_clock()
+        sc = env.Scratch()
+        st = await (env.sql_storage(sc) if backend == "sql" else env.kv_storage(sc))
+        filters = {"k": {"kinds": [1, 7, 2 ** 32, 2 ** 63]}, "a": {"authors": [env.PUBS[0]]}, "t": {"#t": ["x", "v" * 500]}, "s": {"since": env.NOW - 500}}
+        qs = {}
+        for name, f in filters.items():
+            qs[name] = asyncio.Queue()
+            await st.subscribe(env.FakeClient(name), name, [dict(f)], qs[name])
+        evs = []
+        for i in range(24 if tier == "quick" else 120):
+            kind = rng.choice([1, 1, 7, 2 ** 32 - 1, 2 ** 32, 2 ** 63, 40000])
+            ts = rng.choice([env.NOW - 900 + i, env.NOW - 100 + i, 2 ** 32 - 1, 2 ** 32 + 5])
+            tags = rng.choice([[], [["t", "x"]], [["t", "v" * 500]], [["t", "x"], ["t", "x"]], [["t"]]])
+            e = env.mk_event(rng.randrange(3), kind, ts, tags, "ls%d" % i)
+            r = await _submit(st, e)
+            evs.append((e, r))
+        await env.quiesce(st)
+        for _ in range(3):
+            for t in list(st._notify_sub_tasks):
+                try:
+                    await t
+                except Exception:
+                    pass
+            await asyncio.sleep(0)
+        bad = []
+        for name, f in filters.items():
+            live = {it[1].id for it in [qs[name].get_nowait() for _ in range(qs[name].qsize())] if it[1] is not None}
+            got, _ = await env.req(st, [dict(f, limit=5000)], sub_id="again-" + name)
+            stored = {e.id for e in got}
+            for e, r in evs:
+                if e["created_at"] == f.get("since"):
+                    continue
+                if (e["id"] in live) != (e["id"] in stored):
+                    bad.append({"filter": name, "kind": e["kind"], "created_at": e["created_at"], "tags": [t[:2] for t in e["tags"]][:2], "ack": r,
+                                "live": e["id"] in live, "stored_answer": e["id"] in stored})
+        await env.close(st)
+        sc.close()
+        return len(evs), bad
+    for backend in ("sql", "kv"):
+        n, bad = env.run(one(backend))
+        s.case({"backend": backend, "events": n}, nontrivial=True)
+        if bad:
+            s.violate("live-and-stored-disagree", {"backend": backend, "first": bad[0]},
+                      "an event was pushed live under a filter but is not returned by that filter afterwards (or the reverse)", observed=bad[:3])
+    return s
